@@ -41,12 +41,15 @@ def _cls_name(rmin):
     f = Fraction(rmin)
     return "PavProfile_" + ("m" if f < 0 else "") + f"{abs(f.numerator)}_{f.denominator}"
 _CFG = {}
+_BASE = []
 def _cfg_dir(rpc):
+    """rpc = True / False: overlay sets general.grid.remove_projected_centre; "default": the repository's own general.yaml decides"""
     if rpc not in _CFG:
         d = tempfile.mkdtemp(prefix="verif_c17_cfg_")
         atexit.register(shutil.rmtree, d, True)
-        with open(os.path.join(d, "general.yaml"), "w") as f:
-            f.write("grid:\n  remove_projected_centre: %s\n" % ("true" if rpc else "false"))
+        if rpc != "default":
+            with open(os.path.join(d, "general.yaml"), "w") as f:
+                f.write("grid:\n  remove_projected_centre: %s\n" % ("true" if rpc else "false"))
         with open(os.path.join(d, "grids.yaml"), "w") as f:
             f.write("radial_minimum:\n  radial_minimum:\n")
             for r in RMINS: f.write(f"    {_cls_name(r)}: {float(Fraction(r))!r}\n")
@@ -56,7 +59,10 @@ def push_cfg(rpc):
     import logging
     logging.getLogger("autoarray").setLevel(logging.ERROR)      # anisotropic pixel scales log a warning per access
     from autoconf import conf
-    conf.instance.push(_cfg_dir(bool(rpc)))
+    from autoconf.conf import RecursiveConfig
+    if not _BASE: _BASE.extend(conf.instance.configs)          # [cwd/config (absent), <repo>/autoarray/config]
+    # exactly one overlay in front of the repository defaults (conf.instance.push would keep earlier overlays as fall-backs)
+    conf.instance.configs = [RecursiveConfig(_cfg_dir(rpc if rpc == "default" else bool(rpc)))] + list(_BASE)
 
 # --------------------------------------------------------------------------------------------- user functions
 def F(x, d=None): return Fraction(x) if d is None else Fraction(x, d)
@@ -305,8 +311,9 @@ def run_case(inp):
     if band:
         SKIPPED["band"] += 1
         return {"coq": None, "out": "skipped: a radius within 1e-3 of the radial minimum", "py_ok": None, "kind": op + ":skipped", "nontrivial": False}
-    rpc = bool(inp.get("rpc", False))
-    push_cfg(rpc)
+    rpc_in = inp.get("rpc", False)
+    push_cfg(rpc_in)
+    rpc = False if rpc_in == "default" else bool(rpc_in)      # the repository default (after fixes/C17_default_config...) is false
     grid = build_grid(aa, g)
     rmin = inp.get("rmin")
     cls = profile_class(aa, rmin if op in ("relocate", "stack") else "1")
@@ -359,7 +366,12 @@ def run_case(inp):
     else:
         coq = (f"(KStack {DEC[inp['dec']]} {c_opt(None if rmin is None else F(rmin), cq)} {c_pt(fr2(inp['centre']))} "
                f"{c_pt(fr2(inp['angle']))} {cbool(inp['nested'])} {c_gspec(g)} {c_ufun(u)} {sn} {c_rout(out)})")
-    res = {"coq": coq, "out": {"seen": [[str(a), str(b)] for a, b in seen][:12], "result": summarize(out), "notes": notes},
+    extra = []
+    if op == "project" and g["k"] in ("mask", "2d"):
+        c0 = [F(0), F(0)] if inp["centre"] in (None, "absent") else fr2(inp["centre"])
+        n = grid.grid_2d_radial_projected_shape_slim_from(centre=(float(c0[0]), float(c0[1])))
+        extra.append(f"(KShape {c_mask2(pm2(g))} {c_pt(c0)} {cz(int(n))})")
+    res = {"coq": coq, "extra_coq": extra, "out": {"seen": [[str(a), str(b)] for a, b in seen][:12], "result": summarize(out), "notes": notes},
            "py_ok": py_ok if r[0] == "ok" else None, "kind": op + ":" + g["k"] + (":" + inp["dec"] if "dec" in inp else ""),
            "nontrivial": len(seen) >= 2}
     if not py_ok: res["detail"] = "; ".join(notes)
@@ -467,7 +479,8 @@ def gen_inputs(tier, rng):
         if angle == "v": angle = list(rng.choice(ANGLES))
         if g["k"] == "irr": u = rand_ufun(rng, rng.choice("VP"), allow_list=(i % 9 == 0))
         else: u = rand_ufun(rng, "V", allow_list=False)
-        yield {"op": "project", "grid": g, "u": u, "centre": centre, "angle": angle, "rpc": bool(i % 2)}
+        yield {"op": "project", "grid": g, "u": u, "centre": centre, "angle": angle,
+               "rpc": "default" if (i % 5 == 0 and g["k"] in ("mask", "2d")) else bool(i % 2)}
     # ---- relocate_to_radial_minimum alone
     npf = near_pts(RMINS)
     for i in range(160 * N):
